@@ -136,3 +136,26 @@ Proof.
   unfold mix_roots. intros H. apply in_map_iff in H. destruct H as [nd [<- H]].
   apply filter_In in H. destruct H as [_ H]. apply andb_true_iff in H. apply H.
 Qed.
+
+(* ---- non-vacuity: zone e. with the delegation s.e. and the owner t.e.; the evaluator is handed the apex
+   record (e. -> s.e., covers *.e.), the zone's closing record (t.e. -> e.) and the chain-closing record of
+   the child zone s.e. (z.s.e. -> s.e.).  u.e. is denied (truly), and the hypotheses of the theorem hold. *)
+Definition mx_e : rname := [[101]].
+Definition mx_s : rname := [[101]; [115]].
+Definition mx_t : rname := [[101]; [116]].
+Definition mx_u : rname := [[101]; [117]].
+Definition mx_zs : rname := [[101]; [115]; [122]].
+Definition mx_zone : zone := mk_zone mx_e [(mx_e, [2; 6; 46; 47; 48]); (mx_s, [2; 46; 47]); (mx_t, [1; 46; 47])].
+Definition mx_recs : list cnsec :=
+  [ mk_cnsec mx_e mx_s [2; 6; 46; 47; 48] 1 0; mk_cnsec mx_zs mx_s [1; 46; 47] 1 1; mk_cnsec mx_t mx_e [1; 46; 47] 1 2 ].
+Example mix_example :
+  zone_wf_b mx_zone = true /\ mix_roots mx_zone = [mx_s] /\
+  forallb (fun r => genuine_b mx_zone r || confined_b (mix_roots mx_zone) r) mx_recs = true /\
+  existsb (fun r => negb (genuine_b mx_zone r)) mx_recs = true /\
+  outside_b (mix_roots mx_zone) mx_u = true /\
+  aggr_nsec mx_u 1 1 mx_e mx_recs = A_deny RC_NXDOMAIN [2; 0]%nat /\
+  aggr_nsec_set mx_u 1 1 mx_e mx_recs = A_deny RC_NXDOMAIN [2; 0]%nat /\
+  exists_in_b mx_zone mx_u = false /\
+  (* the owner t.e. sorts after the child's closing record too, and is not denied *)
+  aggr_nsec mx_t 1 1 mx_e (firstn 2 mx_recs) = A_err E_missing.
+Proof. vm_compute. repeat split; reflexivity. Qed.
